@@ -5,7 +5,10 @@ From GV Require Import Model.Seed.
 
 Inductive lctx :=
 | LJit | LScan | LWhile | LFori | LCond | LNestedJit | LGrad | LValueAndGrad | LVmap
-| LSeedWhile | LSeedJit | LSeedFori | LSeedOk | LSeedScanWhile | LJitDet.
+| LSeedWhile | LSeedJit | LSeedFori | LSeedOk | LSeedScanWhile | LJitDet
+(* seed over a higher-order primitive whose eager evaluation runs its body without compiling it
+   (jax.checkpoint, custom_jvp, custom_vjp): Seed does not interpret it either *)
+| LSeedEagerHO.
 
 Inductive outcome := ONone | OLowering | ONotImpl | OOtherErr.
 
@@ -36,7 +39,7 @@ Definition model_ctx (c : lctx) (d : nat) : jx * bool :=   (* program, is it see
   | LCond => (JCond b JNil JNil, false)
   | LGrad | LValueAndGrad => (JGrad b JNil, false)
   | LVmap => (b, false)
-  | LSeedWhile | LSeedJit => (JOther b JNil, true)
+  | LSeedWhile | LSeedJit | LSeedEagerHO => (JOther b JNil, true)
   | LSeedFori => (JScan 2 b JNil, true)     (* fori_loop with static bounds is a scan *)
   | LSeedScanWhile => (JScan 2 (JOther b JNil) JNil, true)
   | LSeedOk => (b, true)
